@@ -348,6 +348,21 @@ fn main() {
             match (p, serde_json::to_string_pretty(&sv)) { (Ok(a), Ok(b)) if a != b => report("C05", format!("to_string_pretty of the value of {} gives {:?}, reference {:?}", show(d), a, b)), (Err(e), Ok(_)) => report("C05", format!("to_string_pretty of the value of {} fails: {e}", show(d))), _ => {} }
         }
     }
+    // C05: maps keyed by char / bool / integers (the map-key serializer), against serde_json's text
+    if want("C05") {
+        use std::collections::BTreeMap;
+        let mut cm: BTreeMap<char, u8> = BTreeMap::new();
+        for (i, c) in ['a', '"', '\\', '\u{1}', '\n', '/', 'é', '\u{7f}', '😀'].iter().enumerate() { cm.insert(*c, i as u8); }
+        for c in cm.keys() {
+            let mut one: BTreeMap<char, u8> = BTreeMap::new(); one.insert(*c, 1);
+            match (sonic_rs::to_string(&one), serde_json::to_string(&one)) { (Ok(a), Ok(b)) if a != b => report("C05", format!("to_string of a map with the char key {:?} gives {:?}, reference {:?}", c, a, b)), (Err(e), Ok(_)) => report("C05", format!("to_string of a map with the char key {:?} fails: {e}", c)), _ => {} }
+        }
+        match (sonic_rs::to_string_pretty(&cm), serde_json::to_string_pretty(&cm)) { (Ok(a), Ok(b)) if a != b => report("C05", format!("to_string_pretty of a char-keyed map gives {:?}, reference {:?}", a, b)), _ => {} }
+        let mut bm: BTreeMap<bool, i64> = BTreeMap::new(); bm.insert(true, -1); bm.insert(false, i64::MIN);
+        match (sonic_rs::to_string(&bm), serde_json::to_string(&bm)) { (Ok(a), Ok(b)) if a != b => report("C05", format!("to_string of a bool-keyed map gives {:?}, reference {:?}", a, b)), _ => {} }
+        let mut im: BTreeMap<i64, u64> = BTreeMap::new(); im.insert(i64::MIN, u64::MAX); im.insert(0, 0); im.insert(7, 1);
+        match (sonic_rs::to_string(&im), serde_json::to_string(&im)) { (Ok(a), Ok(b)) if a != b => report("C05", format!("to_string of an integer-keyed map gives {:?}, reference {:?}", a, b)), _ => {} }
+    }
     // C07: numbers against std
     if want("C07") {
         for n in &nums {
